@@ -22,6 +22,7 @@ type SolveResult struct {
 	Batch   bool
 	Answers map[string]string // per solver status (thorough)
 	Candidate bool // Model comes from the weakened (quantifier-free) query
+	Retried   bool // needed the second, longer attempt
 }
 
 type solverSpec struct {
@@ -58,7 +59,7 @@ func cleanupScratch() {
 	}
 }
 
-var solveSem = make(chan struct{}, 8)
+var solveSem = make(chan struct{}, 5)
 var solverStats = struct {
 	sync.Mutex
 	count map[string]int
